@@ -12,6 +12,7 @@ import (
 
 	"github.com/thushan/olla/internal/adapter/proxy/config"
 	"github.com/thushan/olla/internal/adapter/proxy/core"
+	"github.com/thushan/olla/internal/verifhook"
 
 	"github.com/thushan/olla/internal/adapter/proxy/common"
 	"github.com/thushan/olla/internal/logger"
@@ -57,6 +58,9 @@ func (s *Service) streamResponseWithTimeout(clientCtx, upstreamCtx context.Conte
 	rc := http.NewResponseController(w)
 
 	for {
+		if verifhook.Enabled {
+			verifhook.Fault("proxy.stream")
+		}
 		result, err := s.performTimedRead(combinedCtx, resp.Body, buffer, readTimeout, state, rlog)
 		if err != nil {
 			return state.totalBytes, state.lastChunkBuffer.Bytes(), err
